@@ -19,11 +19,19 @@ pub fn property() -> Property {
         parts: vec![
             Part {
                 name: "exact",
+                quick: 2_400,
+                thorough: 60_000,
+                single_shard: false, supplementary: false,
+                run: |cfg| run_part(cfg, (prop_oneof![3 => gen::raw_pos(70), 2 => gen::raw_pos_endgames(), 2 => gen::raw_synth_profiles(8, 9).prop_map(gen::RawPos::Synth)], 1..=3u32, proptest::collection::vec((gen::raw_pos(40), 1..=4u32, 0..10u8), 0..=3)), |(r, d, w)| exact_case(r, *d, w), check_exact),
+                replay: |v| replay_case::<ExactCase, _>(v, check_exact),
+            },
+            Part {
+                name: "searchmoves_exact",
                 quick: 1_600,
                 thorough: 60_000,
                 single_shard: false, supplementary: false,
-                run: |cfg| run_part(cfg, (prop_oneof![3 => gen::raw_pos(70), 2 => gen::raw_pos_endgames()], 1..=3u32, proptest::collection::vec((gen::raw_pos(40), 1..=4u32, 0..8u8), 0..=3)), |(r, d, w)| exact_case(r, *d, w), check_exact),
-                replay: |v| replay_case::<ExactCase, _>(v, check_exact),
+                run: |cfg| run_part(cfg, (prop_oneof![2 => gen::raw_pos_endgames(), 1 => gen::raw_pos(60), 1 => gen::raw_synth_profiles(8, 9).prop_map(gen::RawPos::Synth)], 1..=2u32, any::<u16>()), |(r, d, x)| sm_case(r, *d, *x), check_searchmoves),
+                replay: |v| replay_case::<SmCase, _>(v, check_searchmoves),
             },
             Part {
                 name: "mates",
@@ -49,24 +57,35 @@ pub fn property() -> Property {
 pub struct ExactCase {
     pub fen: String,
     pub depth: u32,
-    pub warmup: Vec<(String, u32)>,
+    /// earlier searches on the same engine instance: (fen, move history, depth)
+    pub warmup: Vec<(String, Vec<String>, u32)>,
 }
 
 fn exact_case(r: &gen::RawPos, depth: u32, w: &[(gen::RawPos, u32, u8)]) -> ExactCase {
-    let p = gen::position(r, ClockDomain::EngineQuiet);
-    let warmup = w
-        .iter()
-        .map(|(r2, d, sel)| {
-            let q = match sel {
-                // the same position searched before (deeper or shallower): state carried between go commands
-                0..=2 => p.clone(),
-                // a position one ply further down
-                3 => p.legal_moves().first().map(|&m| p.apply(m)).unwrap_or_else(|| p.clone()),
-                _ => gen::position(r2, ClockDomain::EngineQuiet),
-            };
-            (q.fen(), *d)
-        })
-        .collect();
+    let mut p = gen::position(r, ClockDomain::EngineQuiet);
+    let mut warmup: Vec<(String, Vec<String>, u32)> = Vec::new();
+    for (r2, d, sel) in w {
+        match sel {
+            // the same position searched before (deeper or shallower): state carried between go commands
+            0..=2 => warmup.push((p.fen(), vec![], *d)),
+            // a position one ply further down
+            3 => warmup.push((p.legal_moves().first().map(|&m| p.apply(m)).unwrap_or_else(|| p.clone()).fen(), vec![], *d)),
+            // a GAME HISTORY through the target position (shuffle a b a' b' a b), after which the target is given
+            // as a bare FEN whose clocks place it right behind that history: nothing of the old history may count
+            4 | 5 => {
+                p.ep = None;
+                if let Some([a, b, a2, b2]) = crate::props::c10::shuffle_quad_pub(&p, *d as u16) {
+                    let hist: Vec<String> = [a, b, a2, b2, a, b].iter().map(Mv::uci).collect();
+                    warmup.push((p.fen(), hist, *d));
+                    p.half += 8;
+                    p.full += 4;
+                } else {
+                    warmup.push((p.fen(), vec![], *d));
+                }
+            }
+            _ => warmup.push((gen::position(r2, ClockDomain::EngineQuiet).fen(), vec![], *d)),
+        }
+    }
     ExactCase { fen: p.fen(), depth, warmup }
 }
 
@@ -82,8 +101,8 @@ pub fn run_search(s: &mut Session, fen: &str, moves: &[String], spec: &GoSpec) -
 pub fn check_exact(c: &ExactCase, ctx: &mut Ctx) -> Result<(), String> {
     let p = Pos::from_fen(&c.fen).ok_or_else(|| format!("{HARNESS_PREFIX} bad fen {}", c.fen))?;
     let mut s = Session::new();
-    for (f, d) in &c.warmup {
-        run_search(&mut s, f, &[], &GoSpec::depth(*d as u64))?;
+    for (f, h, d) in &c.warmup {
+        run_search(&mut s, f, h, &GoSpec::depth(*d as u64))?;
     }
     let out = run_search(&mut s, &c.fen, &[], &GoSpec::depth(c.depth as u64))?;
     s.quit()?;
@@ -124,8 +143,11 @@ pub fn check_exact(c: &ExactCase, ctx: &mut Ctx) -> Result<(), String> {
     let distinct = values.iter().map(|(_, v)| *v).collect::<std::collections::BTreeSet<_>>().len();
     ctx.class(&format!("depth_{}", c.depth));
     ctx.class(&format!("warmups_{}", c.warmup.len()));
-    if c.warmup.iter().any(|(f, d)| *f == c.fen && *d > c.depth) {
+    if c.warmup.iter().any(|(f, _, d)| *f == c.fen && *d > c.depth) {
         ctx.class("same_position_searched_deeper_before");
+    }
+    if c.warmup.iter().any(|(_, h, _)| !h.is_empty()) {
+        ctx.class("earlier_game_history_through_the_same_position");
     }
     if want.abs() > refsearch::WIN / 2 {
         ctx.class("mate_score");
@@ -229,5 +251,83 @@ pub fn check_self(c: &SelfCase, ctx: &mut Ctx) -> Result<(), String> {
     }
     ctx.class("agree");
     ctx.nontrivial((p.fen4(), c.depth));
+    Ok(())
+}
+
+#[derive(Debug, Clone, Serialize, Deserialize)]
+pub struct SmCase {
+    pub fen: String,
+    pub mv: String,
+    pub depth: u32,
+}
+
+fn sm_case(r: &gen::RawPos, depth: u32, x: u16) -> SmCase {
+    let mut p = gen::position(r, ClockDomain::EngineQuiet);
+    // walk towards a position in which a mating or stalemating move exists (mobility-minimising play)
+    if x % 3 != 0 {
+        let mut q = p.clone();
+        for step in 0..10u16 {
+            let legal = q.legal_moves();
+            if legal.is_empty() {
+                break;
+            }
+            if legal.iter().any(|&m| q.apply(m).legal_moves().is_empty()) {
+                p = q.clone();
+                break;
+            }
+            let m = gen::choose_move(&q, &legal, 15 | ((x.wrapping_mul(31).wrapping_add(step * 97) & 0x0fff) << 4));
+            q = q.apply(m);
+            q.half = q.half.min(40);
+        }
+    }
+    let legal = p.legal_moves();
+    if legal.is_empty() {
+        return SmCase { fen: p.fen(), mv: String::new(), depth };
+    }
+    // prefer moves after which the opponent has no legal move (mate / stalemate right at the horizon),
+    // then moves after which the opponent has only one
+    let terminal: Vec<Mv> = legal.iter().copied().filter(|&m| p.apply(m).legal_moves().is_empty()).collect();
+    let pool: &[Mv] = if !terminal.is_empty() && x % 4 != 0 { &terminal } else { &legal };
+    SmCase { fen: p.fen(), mv: pool[(x / 4) as usize % pool.len()].uci(), depth }
+}
+
+/// `go depth d searchmoves m` is worth exactly what m is worth
+pub fn check_searchmoves(c: &SmCase, ctx: &mut Ctx) -> Result<(), String> {
+    if c.mv.is_empty() {
+        ctx.class("terminal_root");
+        return Ok(());
+    }
+    let p = Pos::from_fen(&c.fen).ok_or_else(|| format!("{HARNESS_PREFIX} bad fen {}", c.fen))?;
+    let mut b = eng::board_from_pos(&p);
+    let values = refsearch::root_move_values(&mut b, c.depth);
+    let want = values.iter().find(|(u, _)| *u == c.mv).map(|x| x.1).ok_or_else(|| format!("{HARNESS_PREFIX} searchmove {} not legal in {}", c.mv, c.fen))?;
+    let mut s = Session::new();
+    let out = run_search(&mut s, &c.fen, &[], &GoSpec { depth: Some(c.depth as u64), searchmoves: vec![c.mv.clone()], ..GoSpec::default() })?;
+    s.quit()?;
+    let what = format!("{} `go depth {} searchmoves {}`", c.fen, c.depth, c.mv);
+    if out.best_uci().as_deref() != Some(c.mv.as_str()) {
+        return Err(format!("{what}: bestmove {:?}", out.best_uci()));
+    }
+    let info = out.last_scored().ok_or_else(|| format!("{what}: no scored info"))?;
+    let got = score_text(&info.score.unwrap());
+    let want_text = refsearch::score_text(want, &b);
+    if got != want_text {
+        return Err(format!("{what}: engine reports {got}, the move is worth exactly {want_text}"));
+    }
+    let m = Mv::parse(&c.mv).unwrap();
+    let child = p.apply(m);
+    if child.legal_moves().is_empty() {
+        ctx.class(if child.in_check(child.turn) { "move_mates" } else { "move_stalemates" });
+        if !child.in_check(child.turn) && child.pseudo_moves().iter().any(|&x| child.is_capture(x)) {
+            ctx.class("stalemated_side_has_an_illegal_capture");
+        }
+        ctx.nontrivial((p.fen4(), c.mv.clone(), c.depth));
+    } else {
+        ctx.class("ordinary_move");
+        if values.len() >= 2 {
+            ctx.nontrivial((p.fen4(), c.mv.clone(), c.depth));
+        }
+    }
+    ctx.sample(|| serde_json::json!({"fen": c.fen, "searchmove": c.mv, "depth": c.depth, "score": got}));
     Ok(())
 }
